@@ -8,14 +8,22 @@ const N: usize = 240;
 /// from the big-endian reads of the buffer, header bytes = buf[..16+len].
 #[kani::proof]
 #[kani::unwind(14)]
-fn c02_accept_iff_wellformed_240() {
+pub(crate) fn c02_accept_iff_wellformed_240() {
     let buf: [u8; N] = kani::any();
     let n: usize = kani::any();
     kani::assume(n <= N);
     let r = Header::try_from(&buf[..n]);
     let want = ref_v2(&buf, n);
     match (&r, want) {
-        (Ok(h), RefV2::Ok { cmd, fam, proto, len }) => {
+        (
+            Ok(h),
+            RefV2::Ok {
+                cmd,
+                fam,
+                proto,
+                len,
+            },
+        ) => {
             assert!(h.version == Version::Two);
             assert!(h.command as u8 == cmd);
             assert!(h.protocol as u8 == proto);
@@ -34,8 +42,12 @@ fn c02_accept_iff_wellformed_240() {
                     assert!(fam == 1);
                     let s = a.source_address.octets();
                     let d = a.destination_address.octets();
-                    assert!(s[0] == buf[16] && s[1] == buf[17] && s[2] == buf[18] && s[3] == buf[19]);
-                    assert!(d[0] == buf[20] && d[1] == buf[21] && d[2] == buf[22] && d[3] == buf[23]);
+                    assert!(
+                        s[0] == buf[16] && s[1] == buf[17] && s[2] == buf[18] && s[3] == buf[19]
+                    );
+                    assert!(
+                        d[0] == buf[20] && d[1] == buf[21] && d[2] == buf[22] && d[3] == buf[23]
+                    );
                     assert!(a.source_port == be16(buf[24], buf[25]));
                     assert!(a.destination_port == be16(buf[26], buf[27]));
                     kani::cover!(true, "fam1 accepted");
@@ -64,7 +76,10 @@ fn c02_accept_iff_wellformed_240() {
             kani::cover!(cmd == 0, "LOCAL accepted");
             kani::cover!(cmd == 1, "PROXY accepted");
             kani::cover!(proto == 2, "DGRAM accepted");
-            kani::cover!(len > fam_size(fam) && fam == 1, "trailing TLV bytes accepted");
+            kani::cover!(
+                len > fam_size(fam) && fam == 1,
+                "trailing TLV bytes accepted"
+            );
         }
         (Ok(_), _) => assert!(false, "accepted a header the reference rejects"),
         (Err(_), RefV2::Ok { .. }) => assert!(false, "rejected a well-formed header"),
